@@ -107,7 +107,6 @@ def neighbor_pairs_bounded(repo, reg, prop, tier, seed):
     return res
 
 
-plugin("C12")(neighbor_pairs_bounded)
 
 
 def isdist3_bounded(repo, reg, prop, tier, seed):
@@ -128,4 +127,32 @@ def isdist3_bounded(repo, reg, prop, tier, seed):
     return res
 
 
-plugin("C12")(isdist3_bounded)
+
+
+def trusted_bounded(repo, reg, prop, tier, seed):
+    """Every contract of the property that is `trusted` (never discharged, or discharged in the thorough tier only) is evaluated on the
+    real code over its falsifier scope: a BOUNDED stand-in, never counted as proved."""
+    budget = 400 if tier == "quick" else 4000
+    res = {"name": "trusted_contracts_bounded", "bounded_standins": [], "checked": [], "errors": []}
+    for q, c in sorted(reg.contracts.items()):
+        if prop not in c.props or not c.trusted or c.inline or not c.scope:
+            continue
+        out = _harness("falsify", {"qualname": q, "scope": c.scope, "seed": seed, "budget": budget})
+        res["bounded_standins"].append({
+            "what": f"{q}: the clauses of its contract (NOT discharged deductively" + (" in the quick tier" if getattr(c, "trusted_in_quick", False) else "")
+                    + ") evaluated on the real code", "bound": f"first {budget} inputs of the falsifier scope {c.scope} (replay/scopes.py)",
+            "cases": out.get("tried"), "result": "holds" if out.get("found") is False else {k: out.get(k) for k in ("found", "note", "error")},
+            "evaluation_errors": out.get("harness_errors"), "note": "bounded stand-in; not counted as an obligation"})
+        if out.get("found"):
+            name = f"{q.replace('pyrepseq.', '')}/bounded[{','.join(out['report']['violations'])[:80]}]"
+            res["checked"].append({"name": name, "function": q, "kind": "bounded", "status": "refuted", "instances": 1,
+                                   "solvers": ["concrete evaluation of the contract on the real code"], "time_s": 0.0,
+                                   "detail": str(out["report"])[:400],
+                                   "replay": {"qualname": q, "found": True, "args": out["args"], "report": out["report"]}})
+        elif "error" in out or out.get("found") is None:
+            res["errors"].append((f"bounded:{q}", str(out)[:300]))
+    return res
+
+
+for _p in ("C12", "C13"):
+    plugin(_p)(trusted_bounded)
